@@ -27,17 +27,16 @@ CFG = {
         "quantifier is over all interleavings, which no finite run enumerates."
     ),
     "level_note": (
-        "case_accept := model_matches && case_holds, so case_sound is immediate; every clause of case_holds is a theorem "
-        "of the model over all label sequences in C02_Props.v: exclusion among returned callers = "
-        "keylock_returned_hold_all; entry present iff registered = keylock_entry_iff_registered / keylock_reclaim; "
-        "a blocked caller conflicts with another live caller = keylock_independence (quiet states of the LTS); "
-        "progress = keylock_no_deadlock (quiet states of the LTS, ordered lists, any routing) with the abstract "
-        "keylock_ordered_no_deadlock of Progress.v kept alongside. Proved from model_matches ALONE "
-        "(c02_model_matches_safety, via the bookkeeping relation between the observer's live list and the model's "
-        "callers): returned-is-live and exclusion on every round. PENDING: the same derivation for the count clause "
-        "(needs the bijection between registrations and (caller, key) pairs), independence and progress at the "
-        "boolean quiescence test (needs: objects at or above tnext are idle); until then those clauses are evaluated "
-        "on every observed case as part of case_accept. "
+        "case_accept := model_matches && drained, and case_sound is a real theorem: EVERY clause of case_holds is derived "
+        "from the replayed run of the LTS (C02_Complete.v: c02_model_matches_holds) - hook counts per key and entry count = "
+        "the live callers (bijection between the table's registrations and (caller, key) pairs; zero entries when all are "
+        "released), exclusion among returned callers with all their keys, returned-is-live, a blocked caller conflicts with "
+        "another live caller (the boolean quiescence test of the replay implies quietness: callers beyond the bound are "
+        "absent, lock objects at or above tnext are idle, whoever runs has a request), some caller has returned while "
+        "callers of ordered programs are inside, no unlock/hook blocked. The one conjunct that does NOT follow from a model "
+        "match is kept explicitly in case_accept: `drained` = the action list releases every caller of an ordered program "
+        "(completion); it is a fact about the harness's schedule (it always drains; a deadlock would stop the drain and is "
+        "itself excluded at every round by the derived progress clause), not about the model. "
         "Modelling choices: the table mutex is not a model lock - every table section is one atomic label except the "
         "multi-key unlock section, which is split per key (the code's coarser atomicity admits a subset of the model's "
         "schedules, so the safety theorems cover it); a step the Go code could only take by faulting (nil entry, "
@@ -50,7 +49,9 @@ CFG = {
         "is exercised dynamically (a locker that blocks inside a table section is caught as a blocked hook/unlock)."
     ),
     "rule": (
-        "one case = one forced schedule (12-37 random API actions over 3-6 callers and 2-5 keys, then a drain) on one "
+        "one case = one forced schedule (12-37 random API actions over 3-6 callers and 2-5 keys, then a drain; an action is one "
+        "caller entering, one returned caller unlocking, or a BURST of 2-3 callers released through one gate so that their "
+        "table sections and lock steps really race and the runtime picks the interleaving) on one "
         "freshly built locker; plus the class long-lists (50 per quick run): sharded generic lockers (modulo/xxhash; 2, 3, 73 "
         "shards), Locks/RLocks of 13-24 keys ascending in one global order with several keys per shard, either "
         "parked at a helper-held key and probed by single-key Locks on same-shard keys before/after it, or two such "
